@@ -568,7 +568,7 @@ func wrapMJTextContent(content string) string {
 		inner = normalizeSelfClosingVoidTags(inner)
 
 		if alreadyCDATA {
-			out.Write(inner)
+			out.Write(wrapOutsideCDATA(inner))
 		} else {
 			if bytes.Contains(inner, []byte(cdataEnd)) {
 				inner = bytes.ReplaceAll(inner, []byte(cdataEnd), []byte(cdataEndSafe))
@@ -587,6 +587,41 @@ func wrapMJTextContent(content string) string {
 	}
 
 	return out.String()
+}
+
+// wrapOutsideCDATA handles mj-text content that starts with a CDATA section the author wrote. The
+// author's sections are kept as written; every stretch of content between or behind them is mj-text
+// content like any other (raw HTML, kept as written) and is wrapped in a CDATA section of its own.
+// Passing such a stretch to the XML layer unwrapped would decode its escapes, and "&lt;b&gt;" written
+// as text would reach the output as a real <b> element.
+func wrapOutsideCDATA(inner []byte) []byte {
+	var out bytes.Buffer
+	writeWrapped := func(part []byte) {
+		out.WriteString(cdataStart)
+		out.Write(bytes.ReplaceAll(part, []byte(cdataEnd), []byte(cdataEndSafe)))
+		out.WriteString(cdataEnd)
+	}
+	pos := 0
+	for pos < len(inner) {
+		idx := bytes.Index(inner[pos:], []byte(cdataStart))
+		if idx < 0 {
+			writeWrapped(inner[pos:])
+			break
+		}
+		if idx > 0 {
+			writeWrapped(inner[pos : pos+idx])
+		}
+		pos += idx
+		end := bytes.Index(inner[pos:], []byte(cdataEnd))
+		if end < 0 {
+			// an unterminated section: left as it is for the XML layer to report
+			out.Write(inner[pos:])
+			break
+		}
+		out.Write(inner[pos : pos+end+len(cdataEnd)])
+		pos += end + len(cdataEnd)
+	}
+	return out.Bytes()
 }
 
 // indexMJTextClose finds the next </mj-text> end tag at or after 'from'. XML allows white space
